@@ -27,7 +27,7 @@ def parse_bad(out, tag):
 
 def tv_run(prop, tier, replay_path, *, harness_dirs, pkg, test, trace_module, tag, batches,
            env_of, cfg_extra="", mc=(), level="model_checking", what, sig_of=None,
-           assumptions=(), build_name=None, stats_tag=None, samples_keep=6, race=False):
+           assumptions=(), build_name=None, stats_tag=None, samples_keep=6, race=False, owns=None, merge_into_existing=False):
     """batches: list of dicts (per-batch parameters); env_of(batch, seed, out) -> env for the driver."""
     t0 = time.time()
     seed = env_seed()
@@ -84,6 +84,8 @@ def tv_run(prop, tier, replay_path, *, harness_dirs, pkg, test, trace_module, ta
                             break
                         sample.append(json.loads(l))
             for (t, i, op, fields) in bad:
+                if owns is not None and not owns(op, fields):
+                    continue
                 nviol += 1
                 lines = []
                 with open(out) as fh:
@@ -128,7 +130,24 @@ def tv_run(prop, tier, replay_path, *, harness_dirs, pkg, test, trace_module, ta
             "tlc_exhaustive": mc_runs,
             "exhaustive": False,
         }
-        write_evidence(prop, tier, seed, level, cov, time.time() - t0, nviol, assumptions=list(assumptions))
+        if merge_into_existing:
+            # second engine of a property whose first engine already wrote the evidence file
+            p = os.path.join(os.path.dirname(SPEC), "evidence", prop + ".json")
+            with open(p) as fh:
+                ev = json.load(fh)
+            c0 = ev["coverage"]
+            c0["states"] += cov["states"]
+            c0["transitions"] += cov["transitions"]
+            c0["traces_validated_against_impl"] += cov["traces_validated_against_impl"]
+            c0["evaluations"] += cov["evaluations"]
+            c0["distinct_nontrivial"] += cov["distinct_nontrivial"]
+            c0["samples"] += cov["samples"][:3]
+            c0["second_engine"] = {"driver": test, "trace_module": trace_module, "driver_op_counts": stats_all,
+                                   "tlc_exhaustive": mc_runs, "events": events}
+            write_evidence(prop, tier, seed, ev["level"], c0, ev["wall_s"] + time.time() - t0,
+                           ev.get("violations", 0) + nviol, assumptions=ev.get("assumptions", []) + list(assumptions))
+        else:
+            write_evidence(prop, tier, seed, level, cov, time.time() - t0, nviol, assumptions=list(assumptions))
         return verdict.finish()
     finally:
         scr.cleanup()
